@@ -141,6 +141,30 @@ def main():
         except Exception as e:  # noqa
             pk["other_errors"] += 1
             res["failures"].append(dict(desc, what="whitint accessor raised %s: %s" % (type(e).__name__, e), other=True))
+    # zonal mean through the accessor: what reaches the kernel as zone raster is prepared by the accessor glue; unzoned pixels carry the
+    # (negative) zone nodata and must never be used as an index
+    for (zdt, znd) in [("int16", -1), ("int32", -9999), ("int16", -32768)]:
+        pk = res["per_kernel"].setdefault("zonal.mean (accessor)", dict(runs=0, index_errors=0, poison_diffs=0, other_errors=0))
+        pk["runs"] += 1
+        res["runs"] += 1
+        pix = np.round(rng.gamma(2.0, 50.0, size=(3, 6, 7))).astype("float32")
+        zz = rng.integers(0, 4, size=(6, 7)).astype(zdt)
+        zz[rng.random(zz.shape) < 0.3] = znd
+        desc = dict(kernel="zonal.mean (accessor)", tag="zones %s nodata %d" % (zdt, znd), args=[brief(pix), brief(zz)])
+        try:
+            da = xr.DataArray(pix, dims=("time", "y", "x"), coords={"time": np.arange(3)}, attrs={"nodata": -9999.0})
+            zda = xr.DataArray(zz, dims=("y", "x"), attrs={"nodata": znd})
+            r = da.hdc.zonal.mean(zda, [0, 1, 2, 3]).values
+            want = K("zonal", "do_mean")(pix, zz, 4, -9999.0, znd)
+            if not same(r, want):
+                pk["poison_diffs"] += 1
+                res["failures"].append(dict(desc, what="zonal.mean through the accessor differs from the kernel on the same rasters (unzoned pixels counted?)"))
+        except IndexError as e:
+            pk["index_errors"] += 1
+            res["failures"].append(dict(desc, what="out-of-bounds access (IndexError from the bounds-checked kernel) through the zonal.mean accessor: %s" % e))
+        except Exception as e:  # noqa
+            pk["other_errors"] += 1
+            res["failures"].append(dict(desc, what="zonal.mean accessor raised %s: %s" % (type(e).__name__, e), other=True))
     # controls: the harness must see a real out-of-bounds access and a real unwritten cell
     from numba import njit
 
